@@ -19,6 +19,8 @@ def run(chk, tier):
     chk.guarded(c14.r_offset_used, P, tier)
     chk.guarded(c14.r_verify_halves, P, tier)
     chk.guarded(c14.r_resolve_year_map, P, tier)
+    from props import c10
+    chk.guarded(c10.r_fraction_scale, P, tier)
     chk.guarded(c12.r_numeric_writers, P, tier)
     chk.assume("the round trip itself (for any value), white-space and letter-case perturbations are NOT decided; only that reader and writer agree item by item on width, sign and field")
     return {
